@@ -270,6 +270,14 @@ func (it *Interp) zeroOf(t types.Type) *Term {
 		var names []string
 		var vals []*Term
 		for i := 0; i < u.NumFields(); i++ {
+			if it.role(u.Field(i).Name()) == "embed" {
+				// transparent embedded struct: its fields count as fields of the outer struct
+				if z := it.zeroOf(u.Field(i).Type()); z.Op == "struct" {
+					names = append(names, z.Names...)
+					vals = append(vals, z.Args...)
+					continue
+				}
+			}
 			names = append(names, it.role(u.Field(i).Name()))
 			vals = append(vals, it.zeroOf(u.Field(i).Type()))
 		}
@@ -277,6 +285,7 @@ func (it *Interp) zeroOf(t types.Type) *Term {
 		if n, ok := t.(*types.Named); ok {
 			name = n.Obj().Name()
 		}
+		names, vals = canonFields(names, vals)
 		return &Term{Op: "struct", K: name, Args: vals, Names: names}
 	case *types.Basic:
 		switch {
@@ -311,6 +320,8 @@ func (it *Interp) load(addr *Term, st *State) *Term {
 		return Leaf("undef", "cell"+addr.K)
 	case "fieldaddr":
 		return Mk("field", addr.K, it.load(addr.Args[0], st))
+	case "embedaddr":
+		return it.load(addr.Args[0], st) // the outer value stands for its transparent embedded part
 	case "indexaddr":
 		return Mk("elem", "", addr.Args[0])
 	}
@@ -329,6 +340,16 @@ func (it *Interp) store(addr, v *Term, st *State) {
 	case "fieldaddr":
 		base := it.load(addr.Args[0], st)
 		it.store(addr.Args[0], setField(base, addr.K, v, addr.Names), st)
+	case "embedaddr":
+		// assignment of the whole embedded part: field by field into the outer value
+		if v.Op == "struct" {
+			for i, n := range v.Names {
+				base := it.load(addr.Args[0], st)
+				it.store(addr.Args[0], setField(base, n, v.Args[i], addr.Names), st)
+			}
+			return
+		}
+		st.Events = append(st.Events, Event{Kind: "memstore", Key: addr, Args: []*Term{v}})
 	default:
 		st.Events = append(st.Events, Event{Kind: "memstore", Key: addr, Args: []*Term{v}})
 	}
@@ -365,6 +386,25 @@ func (it *Interp) role(n string) string {
 		return r
 	}
 	return n
+}
+
+// flatFieldNames: field names with transparent embedded structs replaced by their own fields.
+func (it *Interp) flatFieldNames(t types.Type) []string {
+	st, ok := elemType(t).Underlying().(*types.Struct)
+	if !ok {
+		return nil
+	}
+	var out []string
+	for i := 0; i < st.NumFields(); i++ {
+		if it.role(st.Field(i).Name()) == "embed" {
+			if inner := it.flatFieldNames(st.Field(i).Type()); inner != nil {
+				out = append(out, inner...)
+				continue
+			}
+		}
+		out = append(out, it.role(st.Field(i).Name()))
+	}
+	return out
 }
 
 func (it *Interp) structFieldNames(t types.Type) []string {
@@ -502,12 +542,28 @@ func (it *Interp) eval(fr *frame, v ssa.Value, st *State) *Term {
 		if x.Field < len(names) {
 			n = names[x.Field]
 		}
+		var outer []string
+		if base.Op == "embedaddr" {
+			// field of a transparent embedded struct: a field of the outer value
+			outer, base = base.Names, base.Args[0]
+		}
+		if n == "embed" {
+			return &Term{Op: "embedaddr", Args: []*Term{base}, Names: it.flatFieldNames(x.X.Type())}
+		}
+		if outer != nil {
+			names = outer
+		} else {
+			names = it.flatFieldNames(x.X.Type())
+		}
 		return &Term{Op: "fieldaddr", K: n, Args: []*Term{base}, Names: names}
 	case *ssa.Field:
 		names := it.structFieldNames(x.X.Type())
 		n := fmt.Sprintf("#%d", x.Field)
 		if x.Field < len(names) {
 			n = names[x.Field]
+		}
+		if n == "embed" {
+			return it.val(fr, x.X, st)
 		}
 		return Mk("field", n, it.val(fr, x.X, st))
 	case *ssa.IndexAddr:
